@@ -156,6 +156,10 @@ func (w *World) exec(cs *clientState, idx int, op Op) *Rec {
 			s.Note("follower %d synced to %d", op.Node, rev)
 		}
 		return nil
+	case "armtikvfault":
+		// from here on the requests below the TiKV adapter are counted (Extra["tikv_scan_fault"] / ["tikv_get_fault"])
+		w.TiKVScanFaultArmed = true
+		return nil
 	case "crash":
 		// the node stops after this request: its goroutines are never resumed, its engine calls never return
 		s.CrashNode(op.Node)
